@@ -250,7 +250,12 @@ class PopenExecutor(concurrent.futures.Executor):
 
         # submitting new futures after join() would be bad,
         # so we make this internal and only call it from shutdown()
-        for future in list(self._futures):
+        # snapshot under the lock: a submit() that passed the shutdown check is then either
+        # fully registered or not started yet (and will be refused)
+        with self._lock:
+            futures = list(self._futures)
+
+        for future in futures:
             # result() re-raises the exception of a job that timed out or failed:
             # such a job is finished, keep waiting for the remaining ones
             with contextlib.suppress(Exception):
